@@ -292,7 +292,7 @@ def replay(case):
 
 
 MANIFEST = {
-    "text": "Exploration by runtime monitoring: every template and sample is cycled unmodified through each packaging, and generated edit histories (which parts are parsed, body/table/style/meta edits, added files, raw set_part/del_part) are followed by saves to zip path, zip buffer and folder over 1-3 reopen cycles; at every save a monitor snapshots the in-memory state and an independent reader (zipfile/os.walk + lxml C14N 2.0) compares the artefact part by part, then odfdo's own reopen must return the same; flat-XML exports are checked for well-formedness and content inclusion. Held = nothing lost, invented or altered on the saves observed.",
+    "text": "Exploration by runtime monitoring: every template and sample is cycled unmodified through each packaging, and generated edit histories (which parts are parsed, body/table/style/meta edits, added files, raw set_part/del_part) are followed by saves to zip path, zip buffer and folder over 1-3 reopen cycles; at every save a monitor snapshots the in-memory state and an independent reader (zipfile/os.walk + lxml C14N 2.0) compares the artefact part by part, then odfdo's own reopen must return the same; flat-XML exports are checked for well-formedness and content inclusion. Held = nothing lost, invented or altered on the saves observed. Also: one Document object used across saves, edited through the body / meta / styles objects held since before the first save - everything written through them must be in the second artefact.",
     "note": "Trusted: zipfile, lxml C14N 2.0; the snapshot reads private caches (_Document__xmlparts, _Container__parts) only to avoid perturbing which parts are parsed. meta:generator and manifest.rdf reconciliation are the changes save() is allowed to make.",
     "technique": "runtime monitoring: independent reader of the saved artefact compared with a pre-save snapshot of the in-memory state",
 }
